@@ -5,6 +5,8 @@ scratch worktree, and one-paragraph summaries of the changes other agents alread
 property (so that it looks for a different mechanism). Nothing from /verif's machinery is exposed."""
 import json, os, sys, glob
 pid, var = sys.argv[1], sys.argv[2]
+# optional third argument: an extra paragraph of guidance for this round (HINT)
+hint = sys.argv[3] if len(sys.argv) > 3 else ''
 wid = f'{pid}{var}'
 prop = next(json.loads(l) for l in open('/verif/properties.jsonl') if json.loads(l)['id'] == pid)
 known = []
@@ -32,6 +34,8 @@ if known:
     txt += """
 IMPORTANT - the following changes for this property are already known. Do NOT produce any of them or a close variant (same function and same idea); find a DIFFERENT way to break the property, preferably in a different function or file, or through a different mechanism:
 """ + '\n'.join(known) + "\n"
+if hint:
+    txt += "\nFor this round: " + hint + "\n\n"
 txt += f"""Also avoid `git stash` (the stash is shared between sibling worktrees); use `git apply -R MUTANT/patch.diff` / `git apply MUTANT/patch.diff` to switch between the clean and the patched tree.
 
 5. Deliverables, all under {wt}/MUTANT/:
